@@ -18,7 +18,7 @@ TASK_CAP_S = 240
 
 
 def configs_for(prop):
-    return ("baseline", "A", "AB") if prop in ("C09", "C11") else ("baseline", "A", "A2")
+    return ("baseline", "A", "AB") if prop in ("C09", "C11") else ("baseline", "calm", "A")
 
 
 def _worker_init():
